@@ -120,11 +120,12 @@ type fsHook struct {
 	step   int
 	failAt int
 	cur    *issue
-	check  func(string)
+	check  func(string, *issue)
 }
 
 func (h *fsHook) Before(op string, args ...string) error {
 	h.step++
+	h.s.Logf("fs step %d %s (fail at %d)", h.step, op, h.failAt)
 	if h.step == h.failAt {
 		if h.cur != nil {
 			h.cur.diskFailed = true
@@ -135,7 +136,7 @@ func (h *fsHook) Before(op string, args ...string) error {
 	return nil
 }
 func (h *fsHook) After(op string, err error) {
-	h.check(fmt.Sprintf("after fs step %d (%s)", h.step, op))
+	h.check(fmt.Sprintf("after fs step %d (%s)", h.step, op), nil)
 }
 
 var runSeq int
@@ -166,6 +167,7 @@ func Body(s *simrt.Sim, tier string, o Options) {
 		fail int // 0 ok, 1 error, 2 empty chain, 3/4 an error wrapping a context error of the request's own (per-request timeout), Run's context being alive
 		win  window
 		disk int // fs step at which an EIO is injected during this fetch (0 = none)
+		noTA bool // the trust-anchor source is unavailable during this fetch: with identity files the fetch fails as a whole
 	}
 	var plans []plan
 	pastHalf := 0
@@ -184,6 +186,8 @@ func Body(s *simrt.Sim, tier string, o Options) {
 		}
 		if withFiles && s.Choose(5, "diskfault") == 0 {
 			p.disk = 1 + s.Choose(9, "diskstep")
+		} else if withFiles && s.Choose(8, "noanchors") == 0 {
+			p.noTA = true
 		}
 		plans = append(plans, p)
 	}
@@ -192,13 +196,17 @@ func Body(s *simrt.Sim, tier string, o Options) {
 	seenKeys := map[string]bool{}
 	var hook *fsHook
 
-	checkFiles := func(where string) {
+	checkFiles := func(where string, atRest *issue) {
 		if target == nil {
 			return
 		}
 		ents, err := os.ReadDir(*target)
 		if err != nil {
-			return // absent before the first publication
+			// absent before the first publication — but at rest, after a fetch that went through, the identity is there
+			if atRest != nil {
+				s.Fail("identity-files-missing", fmt.Sprintf("%s: fetch #%d succeeded (no disk error was injected) but the identity directory does not exist", where, atRest.n))
+			}
+			return
 		}
 		got := map[string][]byte{}
 		for _, e := range ents {
@@ -230,6 +238,21 @@ func Body(s *simrt.Sim, tier string, o Options) {
 		}
 		// the set is published after the issuer answered: its ca.pem is what the trust-anchor source
 		// held at some moment since then, never a bundle that was replaced while the request was in flight
+		if where == "at rest" {
+			// the published identity is at least as recent as the latest fetch that had gone through when the loop came to rest
+			// (a later fetch may be under way by now: newer is fine, older is not)
+			if atRest != nil {
+				var pub *issue
+				for _, is := range issues {
+					if is.ok && is.serial == chain[0].SerialNumber.Int64() {
+						pub = is
+					}
+				}
+				if pub == nil || pub.n < atRest.n {
+					s.Fail("identity-files-stale", fmt.Sprintf("%s: fetch #%d (serial %d) had succeeded when the rotation loop came to rest, but cert.pem holds serial %d", where, atRest.n, atRest.serial, chain[0].SerialNumber.Int64()))
+				}
+			}
+		}
 		if where == "at rest" {
 			// no fetch is in progress: without injected disk errors the identity directory's parent holds the
 			// link and the one version directory it points to, nothing of earlier rotations
@@ -287,6 +310,12 @@ func Body(s *simrt.Sim, tier string, o Options) {
 			if p.disk > 0 && p.fail == 0 {
 				hook.failAt = p.disk
 			}
+		}
+		ta.fail = false
+		if p.noTA && p.fail == 0 && target != nil {
+			ta.fail = true
+			is.diskFailed = true // (the fetch fails after the issuer answered, like a failed write: nothing is published, nothing is served)
+			s.Fault("anchors.unavailable")
 		}
 		is.retStamp = s.Stamp()
 		switch p.fail {
@@ -426,6 +455,8 @@ func Body(s *simrt.Sim, tier string, o Options) {
 				atRest = is
 			}
 		}
+		// the files are judged now, before anything with a scheduling point of its own: the loop is parked, no fetch is under way
+		checkFiles("at rest", atRest)
 		sv, err := src.GetX509SVID()
 		if err != nil {
 			s.Fail("svid-lost", fmt.Sprintf("GetX509SVID failed after a successful fetch: %v", err))
@@ -466,7 +497,6 @@ func Body(s *simrt.Sim, tier string, o Options) {
 				s.Fail("renewal-overdue", fmt.Sprintf("served certificate (serial %d) passed half-life at %v, it is now %v and no renewal was requested", serial, served.renew.Format("15:04:05"), now.Format("15:04:05")))
 			}
 		}
-		checkFiles("at rest")
 	}
 	// request timing over the whole history
 	for i := 1; i < len(issues); i++ {
